@@ -268,3 +268,28 @@ seed("c02-inverse-nodiv", "C02", SV, "                inv[(i,j)] /= lu[(i,i)];\n
 seed("c02-counter-by-two", "C02", SV, "                pivots += 1;", "                pivots += 2;", "exchange-counter")
 seed("c02-parity-mod3", "C02", SV, "if pivots % 2 == 0 { det }", "if pivots % 3 == 0 { det }", "parity")
 seed("c02-zero-guard-on-wrong-var", "C02", SV, "            if max_a == T::zero() { continue; }", "            if self[(i,i)] == T::one() { continue; }", "zero-pivot")
+
+# ---------------------------------------------------------------- C04
+BD = "src/banded.rs"
+seed("c04-signed-pivot", "C04", BD, "if au[(j, 0)].abs() > dum {", "if au[(j, 0)] > dum {", "magnitude", "the original defect")
+seed("c04-indexmut-transposed", "C04", BD, "        &mut self.compact[ (i, self.m1 + j - i) ]", "        &mut self.compact[ (i, self.m1 + i - j) ]", "index-map")
+seed("c04-drop-sign-flip", "C04", BD, "                *d = -*d;\n", "", "exchange-pair")
+seed("c04-matvec-upper", "C04", BD, "let tmploop = std::cmp::min( m1 + m2 + 1, n - k );", "let tmploop = std::cmp::min( m1 + m2 + 1, n - k + 1 );", "matvec-window")
+seed("c04-matvec-wrong-col", "C04", BD, "result[ i ] += self.compact[ (i, j as usize) ] * vector[ (j + k) as usize ];", "result[ i ] += self.compact[ (i, j as usize) ] * vector[ j as usize ];", "matvec-window")
+seed("c04-fillband-guard", "C04", BD, "if band < - (self.m1 as isize) || band > self.m2 as isize { ", "if band < - (self.m2 as isize) || band > self.m2 as isize { ", "fill-band")
+seed("c04-new-width", "C04", BD, "compact: Matrix::new( n, m1 + m2 + 1, value ),", "compact: Matrix::new( n, m1 + m2, value ),", "layout/new")
+seed("c04-sub-adds", "C04", BD, "compact: &self.compact - &minus.compact,", "compact: &self.compact + &minus.compact,", "operators")
+seed("c04-det-skips-first", "C04", BD, """        for i in 0..self.n {
+            //dd *= au[ i ][ 0 ];""", """        for i in 1..self.n {
+            //dd *= au[ i ][ 0 ];""", "det")
+seed("c04-solve-mult-offset", "C04", BD, "x[ j ] -= al[(k, j - k - 1)] * xk;", "x[ j ] -= al[(k, j - k)] * xk;", "solve-replay")
+seed("c04-solve-swap-unguarded-wrong", "C04", BD, "if j != k { x.swap( k, j ); }", "if j != k { x.swap( k, j - 1 ); }", "solve-replay")
+seed("c04-index-record-inside-if", "C04", BD, """            index[ k ] = i + 1;
+            //if dum == T::zero() { au[ k ][ 0 ] = T::zero(); }
+            if dum == T::zero() { au[(k, 0)] = T::zero();} 
+            if i != k {""", """            //if dum == T::zero() { au[ k ][ 0 ] = T::zero(); }
+            if dum == T::zero() { au[(k, 0)] = T::zero();} 
+            if i != k {
+                index[ k ] = i + 1;""", "exchange-pair")
+seed("c04-mulassign-div", "C04", BD, "        self.compact *= scalar;", "        self.compact /= scalar;", "operators")
+seed("c04-search-init-noabs", "C04", BD, "let mut dum = au[(k, 0)].abs();", "let mut dum = au[(k, 0)];", "magnitude")
